@@ -1,4 +1,4 @@
-import MgpuModel.C13
+import MgpuModel.C13Core
 /-! Helper lemmas for property C13 (slices, symbol-table lookups, overrides). -/
 namespace C13
 
